@@ -101,6 +101,10 @@ class Scenario:
                     # with ca_init == 0 the initial values of ca, rb make pc's initial value (0) already consistent; otherwise the
                     # guaranteed first wake-up of changed() at time 0 has to establish it
                     async for ca_v, rb_v in ctx.changed(ca, rb):
+                        # default first, then the override, as a translated "default assignment + If" would do: several writes of one
+                        # signal in one activation, of which only the last counts
+                        ctx.set(pc, 3)
+                        ctx.set(pc, 0)
                         ctx.set(pc, ca_v & ~rb_v & 3)
                 async def half_lo(ctx):
                     # two processes woken by the same edge write disjoint halves of one signal within one delta cycle
